@@ -397,6 +397,24 @@ def capture(ctx, crate, crs, tag):
                             ok = True
         ctx.ob("capture-pairing" + tag, b.key, "queue:%s#%d" % (pv, ordv[pv]), ok, where_call(b, pi),
                "discovered %s ids are queued exactly once (seen.insert -> push_back)" % pv if ok else why)
+        # ... and on nothing else: whether element A was new says nothing about element B (seed C16-24: the reason string of an
+        # exclusion queued only `if enqueue(Solvable(excluded))`, which is false whenever the solvable is also a candidate)
+        foreign = None
+        po_ = q.origin_thru(b, pt["args"][1], transparent=set())[0]
+        for si, st in seens:
+            sv, sd = elem(st)
+            so_ = q.origin_thru(b, st["args"][1], transparent=set())[0]
+            same = (sv == pv and sd is not None and pd is not None and _same_source(b, sd, pd)) or \
+                (pv is None and sv is None and (q.same_origin(po_, so_) or (po_.get("l") is not None and po_.get("l") == so_.get("l") and po_["k"] == so_["k"])))
+            if same:
+                continue
+            for c in cs:
+                if c.kind == "bool" and c.src and c.src.get("k") == "call" and c.src.get("bb") == si and c.target(True) is not None:
+                    if q.edge_dominates(b, c.bb, c.target(True), pi) and not q.edge_dominates(b, c.bb, c.target(False), pi):
+                        foreign = (sv, where_call(b, si))
+        ctx.ob("capture-pairing" + tag, b.key, "queue:%s#%d:gated-by-its-own-novelty-only" % (pv, ordv[pv]), foreign is None, where_call(b, pi),
+               "queueing this element does not depend on whether another element was new" if foreign is None else
+               "this element is queued only if the %s element tested at %s was new" % foreign)
     ords = {}
     for si, st in seens:
         sv, sd = elem(st)
